@@ -1,6 +1,6 @@
 (* C04 / C12 / C16: the ISV / JFA training accumulators are sums over classes - additive over any split of the
    class list (per-class Dask tasks + reduce_iadd = the in-memory loop) and invariant under any permutation of
-   the classes (renaming the class ids).  Statements fixed; proofs to be completed. *)
+   the classes (renaming the class ids). *)
 From Coq Require Import Reals Lra List Lia Bool Arith Permutation.
 From BLE Require Import Num.Scalar Num.InstR Lib.Vec Model.FA Proofs.RLemmas Proofs.FAEnroll.
 Import ListNotations.
